@@ -346,11 +346,13 @@ def stepX (s : State) (a : Ag) : Option State :=
     else some { s with locked := true, slot := none, taker := none, dropped := s.dropped ++ s.slot.toList,
                        loc := upd s.loc a { l with m := .xUnlock } }
   | .xUnlock => some { s with locked := false, loc := upd s.loc a (afterClose l) }
-  | .ciStRdrop => some { s with rdrop := true, loc := upd s.loc a { l with m := .ciCasEC } }     -- store(true, Release)
+  | .ciStRdrop => if a ≠ .R then none else some { s with rdrop := true, loc := upd s.loc a { l with m := .ciCasEC } }     -- store(true, Release)
   | .ciCasEC =>                                   -- CAS EMPTY → CLOSED (AcqRel / Relaxed)
+    if a ≠ .R then none else
     if s.st = .empty then some { s with st := .closed, loc := upd s.loc a { l with m := .ciCasST } }
     else some (setLoc s a { l with m := .ciCasST })
   | .ciCasST =>                                   -- CAS SENT → TAKEN (AcqRel / Relaxed)
+    if a ≠ .R then none else
     if s.st = .sent then some { s with st := .taken, taker := some a, loc := upd s.loc a { l with m := .xLock } }
     else some (setLoc s a (afterClose l))
   | .arcRel =>                                    -- Arc::drop: the last owner runs OneShotShared::drop
@@ -385,6 +387,7 @@ def stepPb (s : State) (a : Ag) : Option State :=
 /-- `Receiver::try_recv` / `OneShotShared::try_recv` (also the two tries inside a poll) -/
 def stepTry (s : State) (a : Ag) : Option State :=
   let l := s.loc a
+  if a ≠ .R then none else          -- receiver code runs on the receiver handle
   match l.m with
   | .rLdOwn =>                                    -- closed.load(Relaxed)
     if s.closed a then some (setLoc s a { l with m := .ret .disc }) else some (setLoc s a { l with m := .tLdState })
@@ -411,6 +414,7 @@ def stepTry (s : State) (a : Ag) : Option State :=
 /-- `OneShotShared::try_recv`: the arms after the failed CAS / after state EMPTY -/
 def stepTry2 (s : State) (a : Ag) : Option State :=
   let l := s.loc a
+  if a ≠ .R then none else          -- receiver code runs on the receiver handle
   match l.m with
   | .tLdState2 =>                                 -- state.load(Acquire) after the failed CAS
     match s.st with
@@ -429,6 +433,7 @@ def stepTry2 (s : State) (a : Ag) : Option State :=
 /-- `OneShotShared::poll_recv` around its two tries; `park` of the executor -/
 def stepPoll (s : State) (a : Ag) : Option State :=
   let l := s.loc a
+  if a ≠ .R then none else          -- receiver code runs on the receiver handle
   match l.m with
   | .pLdState =>                                  -- poll_recv: state.load(Acquire)
     match s.st with
